@@ -52,7 +52,9 @@ PairVerdict(c) ==
   IN IF (c.DXc # <<>> /\ ~CertMetric(c.nX, EdgeSet(c.EX), c.DXc)) \/ (c.DYc # <<>> /\ ~CertMetric(c.nY, EdgeSet(c.EY), c.DYc))
         THEN <<"machinery", "bad-distance-matrix-certificate", "n/a">>
      ELSE IF c.raised = 1 THEN <<"fail", IF disc THEN "C17-disconnected-raises" ELSE "raises-on-connected-input", "n/a">>
-     ELSE IF (c.warn = 1) # disc THEN <<"fail", IF disc THEN "C17-no-warning-for-disconnected" ELSE "C17-spurious-warning", "n/a">>
+     \* (for C05 the bracket of the graphs AS GIVEN is evaluated first: a connected graph that draws the "disconnected" warning was
+     \*  replaced by something else, and what C05 asks is whether the returned pair still brackets the distance of the inputs)
+     ELSE IF c.mine # "C05" /\ (c.warn = 1) # disc THEN <<"fail", IF disc THEN "C17-no-warning-for-disconnected" ELSE "C17-spurious-warning", "n/a">>
      ELSE IF c.halfint = 0 THEN <<"fail", "C05-not-half-integers", "n/a">>
      ELSE IF \E i \in 1..Len(c.others) : c.others[i] # c.lb2 THEN <<"fail", "C17-lower-bound-depends-on-container", "n/a">>
      ELSE
@@ -67,6 +69,7 @@ PairVerdict(c) ==
            okpairs == {p \in candX \X candY : good(p[1], p[2])}
        IN IF okpairs = {} THEN <<"fail", IF disc THEN "C17-not-a-bracket-of-largest-component" ELSE "not-a-bracket", "n/a">>
           ELSE IF c.iso # <<>> /\ conX /\ conY /\ ~IsIsomorphism(DXf, DYf, ToSeq(c.iso)) THEN <<"machinery", "bad-isomorphism-certificate", "n/a">>
+          ELSE IF (c.warn = 1) # disc THEN <<"fail", IF disc THEN "C17-no-warning-for-disconnected" ELSE "C17-spurious-warning", "n/a">>
           ELSE IF c.hook = 0 \/ disc THEN <<"ok", "", "nohook">>
           ELSE LET DX == DXf DY == DYf IN
                IF c.algo = 1 /\ FindLb(DX, DY) # c.lb2 THEN <<"divergence", "lb-differs-from-algorithm-layer", FindLb(DX, DY)>>
